@@ -19,6 +19,7 @@ import (
 	"strings"
 
 	"github.com/sirupsen/logrus"
+	googleproto "google.golang.org/protobuf/proto"
 
 	"github.com/projectcalico/calico/felix/environment"
 	"github.com/projectcalico/calico/felix/generictables"
@@ -262,6 +263,24 @@ func genCIDR(r *rng, v6 bool, allowCatchAll bool) cidr {
 	return c
 }
 
+// a CIDR list mixing both families (2-4 entries, both present, any order: v6 before v4, interleaved, ...)
+func genMixedNets(r *rng, negated bool) []cidr {
+	n := 2 + r.intn(3)
+	for {
+		var out []cidr
+		have4, have6 := false, false
+		for i := 0; i < n; i++ {
+			v6 := r.chance(50)
+			out = append(out, genCIDR(r, v6, false))
+			have4 = have4 || !v6
+			have6 = have6 || v6
+		}
+		if have4 && have6 {
+			return out
+		}
+	}
+}
+
 func genNets(r *rng, ver int, negated bool) []cidr {
 	n := []int{0, 0, 0, 1, 1, 2, 3, 4}[r.intn(8)]
 	var out []cidr
@@ -307,7 +326,7 @@ func (s *setAlloc) some(r *rng, choices []int) []int {
 	return out
 }
 
-func genRule(r *rng, ver int, sa *setAlloc) (*grule, []string) {
+func genRule(r *rng, ver int, sa *setAlloc, mixed bool) (*grule, []string) {
 	g := &grule{proto: -1, notProto: -1}
 	var tags []string
 	g.action = []string{"", "allow", "deny", "pass", "next-tier", "log", "allow", "deny"}[r.intn(8)]
@@ -403,6 +422,23 @@ func genRule(r *rng, ver int, sa *setAlloc) (*grule, []string) {
 	}
 	if r.chance(12) && len(g.dstPorts) == 0 && len(g.notDstPorts) == 0 {
 		g.dstIPPortSets = sa.some(r, []int{1, 1, 2})
+	}
+	if mixed {
+		// no explicit ip_version, at least one CIDR field mixing IPv4 and IPv6 in arbitrary order; no ICMP
+		// type matches (the rule is rendered for both versions)
+		g.ipver = 0
+		g.icmp, g.notIcmp = nil, nil
+		fields := []*[]cidr{&g.srcNets, &g.notSrcNets, &g.dstNets, &g.notDstNets}
+		k := r.intn(4)
+		for j, f := range fields {
+			switch roll := r.intn(100); {
+			case j == k || roll < 25:
+				*f = genMixedNets(r, j%2 == 1)
+			case roll < 85:
+				*f = nil // leave the rule applicable to both versions
+			}
+		}
+		tags = append(tags, "mixed-family")
 	}
 	return g, tags
 }
@@ -628,7 +664,7 @@ func main() {
 	// corpus first: the minimal three-positive-block rule (scratch bit re-use), both flavours
 	for _, nft := range []bool{false, true} {
 		g, nsets := corpusThreeBlocks()
-		c, err := buildCase(r, g, 4, nft, markCfgs[0], false, false, false, false, nsets)
+		c, err := buildCase(r, g, 4, nft, markCfgs[0], false, false, false, false, nsets, nil)
 		if err != nil {
 			fmt.Fprintf(os.Stderr, "C08 driver: %v\n", err)
 			os.Exit(3)
@@ -636,7 +672,28 @@ func main() {
 		c.Tags = append(c.Tags, "corpus:three-positive-blocks")
 		_ = enc.Encode(c)
 	}
-	for i := 0; i < *n; i++ {
+	emit := func(c *line, err error, tags []string) {
+		if err != nil {
+			// hard error: the tie to the code is gone for this rule
+			fmt.Fprintf(os.Stderr, "C08 driver: %v\n", err)
+			os.Exit(3)
+		}
+		stats["cases"]++
+		c.Tags = append(c.Tags, tags...)
+		_ = enc.Encode(c)
+	}
+	// corpus: the same rule object rendered for IPv4 and then IPv6, as the policy managers do, with a CIDR
+	// list that names the IPv6 net first
+	for _, nft := range []bool{false, true} {
+		g := &grule{proto: -1, notProto: -1, action: "allow"}
+		g.srcNets = []cidr{{true, parseIP("fd00:1::"), 64}, {false, parseIP("10.0.0.0"), 8}}
+		pr := g.toProto()
+		for k, v := range []int{4, 6} {
+			c, err := buildCase(r, g, v, nft, markCfgs[0], false, false, false, false, 0, pr)
+			emit(c, err, []string{"corpus:mixed-4-then-6", fmt.Sprintf("seq:4-then-6:%d", k+1), "mixed-family"})
+		}
+	}
+	for i := 0; stats["cases"] < *n+4; i++ {
 		ver := 4
 		if r.chance(35) {
 			ver = 6
@@ -648,16 +705,24 @@ func main() {
 		reject := r.chance(25)
 		logLimit := r.chance(40)
 		sa := &setAlloc{}
-		g, tags := genRule(r, ver, sa)
-		c, err := buildCase(r, g, ver, nft, mc, flow, untracked, reject, logLimit, sa.n)
-		if err != nil {
-			// hard error: the tie to the code is gone for this rule; make it visible as a failing case
-			fmt.Fprintf(os.Stderr, "C08 driver: %v\n", err)
-			os.Exit(3)
+		mixed := r.chance(12)
+		g, tags := genRule(r, ver, sa, mixed)
+		if mixed || (g.ipver == 0 && g.icmp == nil && g.notIcmp == nil && r.chance(8)) {
+			// ONE proto.Rule object rendered for both IP versions in sequence (4 then 6, or 6 then 4); every
+			// rendering is compared with the model's rendering of the ORIGINAL rule for that version
+			pr := g.toProto()
+			order := []int{4, 6}
+			if r.chance(50) {
+				order = []int{6, 4}
+			}
+			for k, v := range order {
+				c, err := buildCase(r, g, v, nft, mc, flow, untracked, reject, logLimit, sa.n, pr)
+				emit(c, err, append(append([]string{}, tags...), fmt.Sprintf("seq:%d-then-%d:%d", order[0], order[1], k+1)))
+			}
+			continue
 		}
-		stats["cases"]++
-		c.Tags = append(c.Tags, tags...)
-		_ = enc.Encode(c)
+		c, err := buildCase(r, g, ver, nft, mc, flow, untracked, reject, logLimit, sa.n, nil)
+		emit(c, err, tags)
 	}
 	_ = enc.Encode(map[string]any{"stats": stats})
 }
@@ -666,7 +731,9 @@ type devNull struct{}
 
 func (devNull) Write(p []byte) (int, error) { return len(p), nil }
 
-func buildCase(r *rng, g *grule, ver int, nft bool, mc markCfg, flow, untracked, reject, logLimit bool, nsets int) (ln *line, err error) {
+// shared: the proto.Rule object to render (nil = a fresh one).  When given, it may already have been rendered
+// for the other IP version; the model and the oracle always work from g, the original rule.
+func buildCase(r *rng, g *grule, ver int, nft bool, mc markCfg, flow, untracked, reject, logLimit bool, nsets int, shared *proto.Rule) (ln *line, err error) {
 	defer func() {
 		if e := recover(); e != nil {
 			err = fmt.Errorf("renderer panicked on rule %s: %v", g.coq(), e)
@@ -693,13 +760,18 @@ func buildCase(r *rng, g *grule, ver int, nft bool, mc markCfg, flow, untracked,
 		}
 	}
 	renderer := rules.NewRenderer(cfg, nft)
-	pr := g.toProto()
+	pr := shared
+	if pr == nil {
+		pr = g.toProto()
+	}
 	owner, dir := rules.RuleOwnerTypePolicy, rules.RuleDirIngress
 	if r.chance(50) {
 		dir = rules.RuleDirEgress
 	}
 	polID := &types.PolicyID{Name: "default.foo", Kind: "GlobalNetworkPolicy"}
 	out := renderer.ProtoRuleToIptablesRules(pr, uint8(ver), owner, dir, r.intn(5), polID, "default", untracked)
+	// rendering must leave its input alone: the same message is rendered once per IP version
+	inputMutated := !googleproto.Equal(pr, g.toProto())
 
 	// set-name -> id maps (names as the renderer writes them)
 	ipsetCfg := cfg.IPSetConfigV4
@@ -986,9 +1058,9 @@ emit:
 	if ver == 6 {
 		vc = "V6"
 	}
-	coq := fmt.Sprintf("{| k_cfg := %s; k_ver := %s; k_rule := %s; k_sets := [%s]; k_impl := [%s]; k_impl_splits := %s; k_packets := %s |}",
+	coq := fmt.Sprintf("{| k_cfg := %s; k_ver := %s; k_rule := %s; k_sets := [%s]; k_impl := [%s]; k_impl_splits := %s; k_packets := %s; k_input_mutated := %v |}",
 		cfgCoq, vc, g.coq(), strings.Join(setsCoq, "; "), strings.Join(parsed, "; "), splitCoq,
-		coqList(pkts, func(p packet) string { return p.coq(ver) }))
+		coqList(pkts, func(p packet) string { return p.coq(ver) }), inputMutated)
 	coq = "(" + strings.ReplaceAll(coq, "%N", "") + ")%N"
 
 	nb := posBlocks(g, ver, splits)
@@ -1005,9 +1077,12 @@ emit:
 	if g.notIcmp != nil && g.notIcmp.hasCode {
 		tags = append(tags, "not-icmp-type-code")
 	}
+	if inputMutated {
+		tags = append(tags, "input-rule-mutated")
+	}
 	sort.Strings(tags)
-	return &line{Coq: coq, NT: len(out) >= 2 && len(pkts) >= 10, Key: fmt.Sprintf("%s|%d|%s|%s", fl, ver, cfgCoq, g.coq()),
-		Sample: map[string]any{"rule": pr.String(), "rendered": texts, "flavor": fl, "ipver": ver, "packets": len(pkts)}, Tags: tags}, nil
+	return &line{Coq: coq, NT: len(out) >= 2 && len(pkts) >= 10, Key: fmt.Sprintf("%s|%d|%s|%s|%v", fl, ver, cfgCoq, g.coq(), shared != nil),
+		Sample: map[string]any{"rule": g.toProto().String(), "rule_object_after_rendering": pr.String(), "shared_rule_object": shared != nil, "rendered": texts, "flavor": fl, "ipver": ver, "packets": len(pkts)}, Tags: tags}, nil
 }
 
 // allow, source named ports {s0,s1}, destination named ports {s2,s3}, source 10.0.0.0/8 or 11.0.0.0/8:
